@@ -1,10 +1,10 @@
 package handshake
 
 //symgo:pkg github.com/pion/dtls/v3/pkg/protocol/handshake
-//symgo:param NSKE quick=8 thorough=12
+//symgo:param NSKE quick=7 thorough=12
 //symgo:param NSKES quick=1 thorough=3
 //symgo:param NSKEP quick=5 thorough=8
-//symgo:param NSKEEP quick=8 thorough=11
+//symgo:param NSKEEP quick=7 thorough=11
 //symgo:param NSKET quick=6 thorough=10
 //symgo:param NSKEV quick=2 thorough=4
 
